@@ -279,7 +279,7 @@ def axiom_audit(prop, modules, theorems):
         lk.close()
     res = {}
     cur = None
-    for m in re.finditer(r"'([^']+)' (depends on axioms: \[([^\]]*)\]|does not depend on any axioms)", out.replace("\n", " ")):
+    for m in re.finditer(r"'(\S+)' (depends on axioms: \[([^\]]*)\]|does not depend on any axioms)", out.replace("\n", " ")):
         name = m.group(1).split(".")[-1]
         axs = [a.strip() for a in (m.group(3) or "").split(",") if a.strip()]
         res[name] = sorted(axs)
